@@ -106,7 +106,7 @@ def run(ctx, pid, names, profile, rule):
     fixed = list(profile.get('fixed', []))
     for h in range(n + len(fixed)):
         if h < len(fixed):
-            cfg, ops = hist.Cfg(), fixed[h]
+            cfg, ops = fixed[h] if isinstance(fixed[h], tuple) and len(fixed[h]) == 2 and isinstance(fixed[h][0], hist.Cfg) else (hist.Cfg(), fixed[h])
         else:
             cfg = gen_cfg(rng, profile)
             ops = hist.gen_history(rng, cfg, rng.choice(profile.get('lengths', [8, 15, 25])), profile.get('weights'), profile.get('max_sessions', 4))
